@@ -294,8 +294,8 @@ impl Model {
 
 fn src_frame<F: AdFrame>(id: u32, len: Option<u64>, i: u64) -> F {
     match len {
-        Some(l) if i >= l => F::EQUILIBRIUM,
-        _ => F::leaf(id, i),
+        Some(l) if i >= l => F::eq_ref(),
+        _ => crate::adframe::any_leaf::<F>(id, i),
     }
 }
 
@@ -384,7 +384,10 @@ fn check_output<F: AdFrame>(m: &Model, id: u32, p: u128, got: F, obs: &mut Obser
 /// Conversion rounding of the output format relative to the f64 ideal (f32 outputs round).
 fn conv_tol<F: AdFrame>(ideal: f64) -> f64 {
     if F::IS_FLOAT && F::NAME.contains("f32") {
-        (ideal.abs() as f32 * f32::EPSILON) as f64
+        // (plus the absolute spacing of f32 subnormals)
+        (ideal.abs() as f32 * f32::EPSILON) as f64 + 1.5e-45
+    } else if F::IS_FLOAT {
+        5e-324
     } else {
         0.0
     }
@@ -445,8 +448,11 @@ where
     let ctl_len = if ctl_len < 0 { None } else { Some(ctl_len as u64) };
     let drain_first = src.cfg("drain_first", 0, 1, |r| (len.is_some() && !mul_hz && r.chance(1, 4)) as i64) == 1;
     let cloneable = src.cfg("cloneable_interp", 0, 1, |r| (!mul_hz && r.chance(1, 3)) as i64) == 1 && !mul_hz;
-    let id = 1u32 + 16; // amplitude < 1/2 of full scale
-    let (mut source, pulls): (ProbeSignal<F>, Pulls) = ProbeSignal::with(id, len, F::leaf as fn(u32, u64) -> F);
+    // (a sixth of the runs: source frames made of the format's edge values — minimum, maximum, around
+    // equilibrium, powers of two — which interpolation between neighbours never takes out of range)
+    let edge = src.cfg("edge_values", 0, 1, |r| r.chance(1, 6) as i64) == 1;
+    let id = (1u32 + 16) | if edge { crate::adframe::EDGE_BIT } else { 0 }; // otherwise amplitude < 1/2 of full scale
+    let (mut source, pulls): (ProbeSignal<F>, Pulls) = ProbeSignal::with(id, len, crate::adframe::any_leaf::<F> as fn(u32, u64) -> F);
     // prime the interpolator from the source, as documented
     let prime = if linear { 2 } else { 1 };
     if matches!(len, Some(l) if l < prime) {
@@ -846,7 +852,7 @@ impl Scenario for ConverterScenario {
         }
     }
     fn run(&self, src: &mut Source, obs: &mut Observer) -> Result<(), Violation> {
-        let fmt = src.cfg("frame", 0, 6, |r| r.range(0, 6));
+        let fmt = src.cfg("frame", 0, 14, |r| r.range(0, 14));
         obs.note(fmt as u64);
         match fmt {
             0 => drive::<f64>(src, obs),
@@ -855,7 +861,16 @@ impl Scenario for ConverterScenario {
             3 => drive::<i16>(src, obs),
             4 => drive::<[i32; 2]>(src, obs),
             5 => drive::<u8>(src, obs),
-            _ => drive::<i64>(src, obs),
+            6 => drive::<i64>(src, obs),
+            // (every remaining sample type, so that each f64 <-> sample conversion pair is on a linear path)
+            7 => drive::<u16>(src, obs),
+            8 => drive::<[u32; 2]>(src, obs),
+            9 => drive::<u64>(src, obs),
+            10 => drive::<[i8; 2]>(src, obs),
+            11 => drive::<dasp_sample::types::I24>(src, obs),
+            12 => drive::<[dasp_sample::types::U24; 2]>(src, obs),
+            13 => drive::<dasp_sample::types::I48>(src, obs),
+            _ => drive::<[dasp_sample::types::U48; 2]>(src, obs),
         }
     }
 }
